@@ -7,6 +7,12 @@ props = [json.loads(l)["id"] for l in open(os.path.join(V, "properties.jsonl"))]
 TRUST = "TLC and the JVM; rustc; the Rust harness' recording code (events are what the real API returned); the pure-TLA+ number library spec/lib (unit-tested by TLC against Python integers)"
 
 CHECKS = {
+ "C01": dict(
+    technique="TLA+ conversion graph with the derive macro's routing algorithm transcribed (ConvGraph.tla) checked by TLC for all ordered pairs; walks replayed on the real conversions; TLC trace validation of the invariance of the abstract colour (ColourEq.tla, exact fixed-point arithmetic)",
+    category="model_checking",
+    text="TLC proves on the model that each of the 324 ordered pairs of colour types has a terminating route made of hand-written edges (the search of find_nearest_color is transcribed step by step) and predicts which typed pairs exist; the prediction is compared with the compile-time existence matrix of the harness. All ordered pairs of 19 typed nodes (f32 and f64) are then executed as round trips A->B->A, as triangles A->C versus A->B->C through five hub spaces, and with alpha attached; TLC requires the XYZ image of the colour to be invariant under every hop (tolerance relative to the vector, 2^-40 in f64 for routes that avoid the 7-digit RGB matrices, 2^-19 otherwise, 2^-15 in f32), the round trip to return the start coordinates, alpha and colour to be bit-identical with and without alpha.",
+    ref="DESIGN.md section 4 C01",
+    note=TRUST + "; the code's own direct conversion to Xyz is the abstraction function (a defect common to all routes is C02's business); start colours are inside the sRGB gamut by a margin for walks through gamut-bounded spaces; other RGB standards and white points than sRGB/D65 are not yet driven; known finding C01-oklab-direct-vs-xyz-route"),
  "C03": dict(
     technique="TLA+ bounds contract (Bounds.tla, documented table in Types.tla); TLC proves the contract on a lattice model; TLC trace validation of clamp / clamp_assign / slice / is_within_bounds / from_color / try_from_color events with exact dyadic arithmetic",
     category="model_checking",
